@@ -112,8 +112,13 @@ impl<T: Value, N: Unsigned, U: UpdateMap<T>> Vector<T, N, U> {
 impl<T: Value, N: Unsigned, U: UpdateMap<T>> TryFrom<List<T, N, U>> for Vector<T, N, U> {
     type Error = Error;
 
-    fn try_from(list: List<T, N, U>) -> Result<Self, Error> {
+    fn try_from(mut list: List<T, N, U>) -> Result<Self, Error> {
         if list.len() == N::to_usize() {
+            // Pending pushes must be applied: a vector's backing tree always holds `N` elements
+            // (rebasing and iteration rely on it). Pending overwrites can stay pending.
+            if list.interface.backing.length.as_usize() != N::to_usize() {
+                list.apply_updates()?;
+            }
             let updates = list.interface.updates;
             let backing = VectorInner {
                 tree: list.interface.backing.tree,
